@@ -130,6 +130,14 @@ fn cli_case(t0: &mut Tape, w: &Worker) -> CaseResult {
     let toml_fmt = ot.chance(1, 2);
     let e_code = 1 + ot.below(255);
     let k_runs = w.tier.pick(8, 40);
+    // option interaction: a check together with a link filter and an output destination (the tool documents that the
+    // output is ignored when a check is requested) must be as deterministic as the plain check
+    let filter_and_output: Option<u8> = if !mode.stave() && ot.chance(1, 5) && !stream.links.is_empty() {
+        let li = ot.below(stream.links.len());
+        stream.links[li].packets.first().map(|p| p.rdh.link_id)
+    } else {
+        None
+    };
     let mut case = CliCase::new(w, bytes.clone());
     let file = case.file();
     let mut first: Option<Observed> = None;
@@ -146,6 +154,9 @@ fn cli_case(t0: &mut Tape, w: &Worker) -> CaseResult {
         args.push("-E".into());
         args.push(e_code.to_string());
         args.extend(stats_args(&sp, toml_fmt));
+        if let Some(l) = filter_and_output {
+            args.extend(["--filter-link".to_string(), l.to_string(), "-o".to_string(), w.path("ignored_output.raw").display().to_string()]);
+        }
         let mut spec = RunSpec::new(args, Input::File(file.clone()));
         spec.env = sched_env(&mut ot, k, &trace);
         spec.timeout = std::time::Duration::from_secs(60);
@@ -222,6 +233,9 @@ fn cli_case(t0: &mut Tape, w: &Worker) -> CaseResult {
         }
     }
     out.labels.push(format!("mode:{}", mode.name()));
+    if filter_and_output.is_some() {
+        out.labels.push("check+filter+output".into());
+    }
     out.labels.push(if mute { "muted".into() } else { "unmuted".into() });
     out.labels.push(if toml_fmt { "stats:toml".into() } else { "stats:json".into() });
     out.labels.push(format!("arrival_orders:{}", arrivals.len().min(5)));
